@@ -168,3 +168,76 @@ def run(ck, prog):
                 else:
                     ck.ok(rule, inst, b.path, f"{b.loc[0]}:{b.loc[1]}", "")
     ck.floor(rule, 144)
+
+
+# ------------------------------------------------------------------ default ab(): the four arms are op(A)*op(B)
+_run_pre_ab = run
+
+
+def _norm_product(t):
+    """normal form of a term built from matmul / transpose over the two arguments: list of (arg, transposed) factors;
+    (XY)^T = Y^T X^T, (X^T)^T = X.  None when the term has another shape."""
+    if t[0] == "arg":
+        return [(t[1], False)]
+    if t[0] == "call" and t[1].endswith("::transpose") and len(t[2]) == 1:
+        inner = _norm_product(t[2][0])
+        if inner is None:
+            return None
+        return [(a, not tr) for (a, tr) in reversed(inner)]
+    if t[0] == "call" and t[1].endswith("::matmul") and len(t[2]) == 2:
+        x, y = _norm_product(t[2][0]), _norm_product(t[2][1])
+        if x is None or y is None:
+            return None
+        return x + y
+    return None
+
+
+def default_ab_algebra(ck, prog):
+    """HighOrderOperations::ab (the default both bindings inherit): under each of the four flag settings the returned term,
+    normalised with (XY)^T = Y^T X^T and (X^T)^T = X, is op_a(self) * op_b(b). Exact symbolic identity, no numerics."""
+    from sa.prov import Resolver, render
+    rule, inst0 = "E6-algebra", "default HighOrderOperations::ab"
+    b = prog.bodies.get("linalg::high_order::HighOrderOperations::ab")
+    if b is None:
+        ck.violation(rule, inst0, "linalg::high_order::HighOrderOperations::ab", "", expected="anchor exists", found="anchor vanished")
+        return
+    res = Resolver(b)
+    sw = []
+    for i, blk in enumerate(b.blocks):
+        t = blk["term"]
+        if blk["cleanup"] or i not in b.reach or t["k"] != "switch" or t["o"]["k"] not in ("copy", "move"):
+            continue
+        term = res.operand(t["o"])
+        if term[0] == "arg" and term[1] in (2, 4) and len(t["targets"]) == 1 and t["targets"][0][0] == "0":
+            sw.append((i, term[1], t["targets"][0][1], t["otherwise"]))       # (bb, flag arg, false dst, true dst)
+    defs = [d for d in b.defs.get(0, []) if d.kind in ("call", "assign")]
+    for at in (False, True):
+        for bt in (False, True):
+            inst = f"{inst0}(a_transpose={str(at).lower()}, b_transpose={str(bt).lower()}) = {'A^T' if at else 'A'} * {'B^T' if bt else 'B'}"
+            cut = set()
+            for (bb, flag, fdst, tdst) in sw:
+                val = at if flag == 2 else bt
+                cut.add((bb, fdst) if val else (bb, tdst))
+            reach = b.reachable_from([0], cut_edges=frozenset(cut))
+            live = [d for d in defs if d.bb in reach]
+            want = [(1, at), (3, bt)]
+            if len(live) != 1:
+                ck.violation(rule, inst, b.path, f"{b.loc[0]}:{b.loc[1]}", expected="exactly one arm assigns the result under these flags",
+                             found=f"{len(live)} reachable result definitions (flags not decided by switches on the two flag arguments)")
+                continue
+            term = res.from_def(live[0], 1, ())
+            nf = _norm_product(term)
+            where = b.where(live[0].bb)
+            if nf == want:
+                ck.ok(rule, inst, b.path, where, f"`{render(term)}` normalises to {nf}")
+            elif nf is None:
+                # not a matmul/transpose term over the two operands (helper, explicit loops): outside this rule
+                ck.note(f"{inst}: result `{render(term)[:80]}` is not a matmul/transpose term: not decided by E6-algebra")
+            else:
+                ck.violation(rule, inst, b.path, where, expected=f"a term equal to {want} (argument, transposed) under (XY)^T = Y^T X^T",
+                             found=f"`{render(term)}` normalises to {nf}")
+
+
+def run(ck, prog):
+    _run_pre_ab(ck, prog)
+    default_ab_algebra(ck, prog)
